@@ -76,8 +76,12 @@ def rule_comparator(ctx, repo):
              and "dae.t" in src(d.g.data(tn)["ast"].test)]
     if not tests:
         raise AnalysisError("TDS.do_switch: event-time test vanished")
+    leaves = []
     for tn in tests:
-        e = d.g.data(tn)["ast"].test
+        for l in Q._bool_leaves(d.g.data(tn)["ast"].test, []):
+            if "switch_times" in src(l) and "dae.t" in src(l):
+                leaves.append((tn, l))
+    for tn, e in leaves:
         ok, why = exact_time_comparator(e)
         m = Q.match("np.equal($s.dae.t, $s.switch_times[self._switch_idx])", e) or Q.match("$s.dae.t == $s.switch_times[self._switch_idx]", e)
         if ok is None:
@@ -106,12 +110,29 @@ def rule_advance_dispatch(ctx, repo):
                       "current time here is dropped", f.W(a))
     resets = 0
     for mname, fn in ci.methods.items():
+        fm = None
         for n in walk_noscope(fn):
             if isinstance(n, ast.Assign) and any(dotted(t) == "self._switch_idx" for t in n.targets):
                 resets += 1
-                ctx.check(mname in ("__init__", "reset") and isinstance(n.value, ast.Constant) and n.value.value == 0,
-                          "C06.advance", "TDS.%s/reset" % mname, "pointer reset to 0 only by the constructor / reset()",
-                          "event pointer assigned in %s" % mname, repo.W(ci, n))
+                const = isinstance(n.value, ast.Constant) and n.value.value in (0, 1)
+                if mname in ("__init__", "reset"):
+                    ok = const and n.value.value == 0
+                    why = "event pointer assigned in %s" % mname
+                else:
+                    # re-positioning is legitimate only right after the schedule the pointer indexes has been rebuilt (the rebuilt
+                    # schedule starts at the current time); skipping its first entry needs the evidence that this entry is the event
+                    # that has just been processed
+                    fm = fm or F(repo, ci, fn)
+                    node = [x for x in fm.g.nodes() if fm.g.data(x)["ast"] is n]
+                    rebuilds = fm.calls("system.store_switch_times")
+                    ok = const and bool(node) and bool(rebuilds) and fm.g.must_pass(fm.g.entry, node[0], rebuilds)[0]
+                    why = "event pointer assigned in %s without the schedule having been rebuilt on every path to it" % mname
+                    if ok and n.value.value == 1:
+                        pc = " ".join(src(t_) for t_, pol in (Q.path_condition(fn, n) or []) if pol)
+                        ok = "_last_switch_t" in pc and "switch_times[0]" in pc
+                        why = "the first entry of the rebuilt schedule is skipped without testing that it is the event just processed"
+                ctx.check(ok, "C06.advance", "TDS.%s/reset" % mname, "pointer set to 0 only by the constructor / reset(), or re-positioned right "
+                          "after a rebuild of the schedule", why + ": events before the pointer never fire, events after a reset fire again", repo.W(ci, n))
     # (no advance at all is decided below: a dispatched event that is not stepped over fires again)
     # dispatch uses the entry of the current index and the models that defined the time
     d = F.method(repo, "TDS", "do_switch", TDS)
@@ -454,6 +475,10 @@ def run(ctx):
     rule_schedule(ctx, repo)
     rule_callbacks(ctx, repo)
     rule_exact(ctx, repo)
+    from rules import c06_once, c06_schedule
+    ctx.rule("C06.once", "one do_switch call hands a model to switch_action at most once", 1)
+    c06_once.run_rule(ctx, repo)
+    c06_schedule.run_rule(ctx, repo)
     before = len(ctx.results)
     c04.rule_stepsize(ctx, repo)
     c04.rule_run_loop(ctx, repo)
